@@ -39,8 +39,15 @@ void BiPropNode::biPropDependsOnOneNode(BiPropNode& node) {
     set_insert(*biPropSet_, &node);
     node.biPropSet_ = biPropSet_;
   } else if (node.biPropSet_ != nullptr && biPropSet_ != nullptr) {
-    set_union(*biPropSet_, *node.biPropSet_);
-    node.biPropSet_ = biPropSet_;
+    if (node.biPropSet_ != biPropSet_) {
+      set_union(*biPropSet_, *node.biPropSet_);
+      // Every member of the absorbed set must refer to the merged set; otherwise those nodes keep
+      // propagating through (and removing themselves from) the stale set only.
+      const auto absorbed = node.biPropSet_;
+      for (const BiPropNode* member : *absorbed) {
+        const_cast<BiPropNode*>(member)->biPropSet_ = biPropSet_;
+      }
+    }
   } else if (biPropSet_ == nullptr) {
     biPropSet_ = node.biPropSet_;
     set_insert(*biPropSet_, this);
